@@ -245,4 +245,57 @@ def unixAuthority (s : Bytes) : Bool :=
     | some nr => unixStart nr.2
     | none => false
 
+/-- D16f for a parsed host: "%2F…" or (from a bracketed literal) "/…" -/
+def unixHost (h : Bytes) : Bool := unixStart h || h.head? == some 0x2f
+
+/-! ### RFC 7252 §6.4 steps 5–9: the options of a request for a parsed URI
+
+-- SPEC DECISION D16g: Uri-Host carries the host percent-decoded and in ASCII lower case.  RFC 7252 §6.4 step 5 lower-cases
+--   first and decodes then; the two orders differ only for a percent-encoded upper-case letter ("%41"), which a
+--   normalised URI does not contain (RFC 3986 §6.2.2.2) and which names the same host either way (§3.2.2: the host
+--   is case-insensitive).  The host is "the request's destination IP address as an IP-literal or IPv4address"
+--   (step 5) iff its text — without an IPv6 zone identifier, RFC 6874 — equals the canonical text `dst` of the
+--   destination address.  Step 7 compares the port with the destination port; S follows the property text
+--   ("default ports are recognised"): Uri-Port is present iff the port is not the scheme's default. -/
+
+def lowerAscii (c : UInt8) : UInt8 := if 65 ≤ c.toNat ∧ c.toNat ≤ 90 then UInt8.ofNat (c.toNat + 32) else c
+
+/-- the address part of a host: everything before an IPv6 zone identifier ("%25eth0"; libcoap also takes "%eth0") -/
+def hostAddr (h : Bytes) : Bytes := (breakAt (· == 0x25) h).1
+
+/-- uint option value (RFC 7252 §3.2: big-endian, no leading zero bytes) of a 16-bit port -/
+def portBytes (p : Nat) : Bytes :=
+  if p = 0 then [] else if p < 256 then [UInt8.ofNat p] else [UInt8.ofNat (p / 256), UInt8.ofNat (p % 256)]
+
+def schemeDefaultPort (schemes : List (Bytes × Nat × Bool × Nat)) (id : Nat) : Nat :=
+  match schemes.find? (fun e => e.2.2.2 == id) with
+  | some e => e.2.1
+  | none => 5683
+
+/-- step 5: Uri-Host unless the URI has no authority or the host is the destination address literal;
+`none` = the host has a malformed escape (outside S, D4) -/
+def hostOption (dst host : Bytes) : Option (List (Nat × Bytes)) :=
+  if host = [] ∨ hostAddr host = dst then some []
+  else match pctDecode host with
+       | some h => some [(3, h.map lowerAscii)]
+       | none => none
+
+/-- steps 6/7 -/
+def portOption (schemes : List (Bytes × Nat × Bool × Nat)) (scheme port : Nat) : List (Nat × Bytes) :=
+  if port ≠ schemeDefaultPort schemes scheme then [(7, portBytes port)] else []
+
+/-- step 8: no Uri-Path for an empty path (or a single slash) -/
+def pathOptions (path : Bytes) : Option (List Bytes) := if path = [] then some [] else splitPath path
+/-- step 9 -/
+def queryOptions (query : Bytes) : Option (List Bytes) := if query = [] then some [] else splitQuery query
+
+/-- (option number, value) in the order of the steps; `dst` = text of the request's destination address.
+`none` = outside S (Unix-socket host D16f, malformed escape D4/D16a). -/
+def uriOptions (schemes : List (Bytes × Nat × Bool × Nat)) (dst : Bytes) (u : UriParts) : Option (List (Nat × Bytes)) :=
+  if unixHost u.host then none else
+  match hostOption dst u.host, pathOptions u.path, queryOptions u.query with
+  | some ho, some ps, some qs =>
+    some (ho ++ portOption schemes u.scheme u.port ++ ps.map (fun v => (11, v)) ++ qs.map (fun v => (15, v)))
+  | _, _, _ => none
+
 end Coap.Spec.Uri
